@@ -91,6 +91,8 @@ type Exec struct {
 	mergeStates []*State
 	limited     bool
 	assertsDone map[*AssertSpec]bool
+	ghostCells  map[string]*Cell
+	ghostDone   map[*GhostSet]bool
 	appliesDone map[*ApplySpec]bool
 	arrayCells  map[*Cell]int
 	arrayElem   map[*Cell]MT
@@ -461,7 +463,7 @@ func newExec(w *World, fn *ssa.Function, c *Contract, split *int) *Exec {
 		loops: map[*ssa.BasicBlock]*loopInfo{}, backEdge: map[[2]*ssa.BasicBlock]bool{},
 		kindCount: map[string]int{}, callCount: map[string]int{}, srcLines: map[string][]string{},
 		usedWaivers: map[*Waiver]bool{}, splitVal: split,
-		arrayCells: map[*Cell]int{}, arrayElem: map[*Cell]MT{}, cutsDone: map[*CutSpec]bool{}, assertsDone: map[*AssertSpec]bool{}, appliesDone: map[*ApplySpec]bool{}}
+		arrayCells: map[*Cell]int{}, arrayElem: map[*Cell]MT{}, cutsDone: map[*CutSpec]bool{}, assertsDone: map[*AssertSpec]bool{}, ghostCells: map[string]*Cell{}, ghostDone: map[*GhostSet]bool{}, appliesDone: map[*ApplySpec]bool{}}
 	x.vc = newVC(x.name, mode)
 	if split != nil {
 		x.suffix = fmt.Sprintf("/%s=%d", c.Split.Var, *split)
@@ -721,6 +723,11 @@ func (x *Exec) envAt(pos token.Pos) *Env {
 	env.lookupCur = func(name string) (Val, bool) {
 		if v, ok := x.lookupVarAt(name, pos); ok {
 			return v, true
+		}
+		if c, ok := x.ghostCells[name]; ok {
+			if v, ok := x.cur.mem[c]; ok {
+				return v, true
+			}
 		}
 		if name == "DefaultRoundingMode" {
 			return x.globalInput(name), true
@@ -1009,7 +1016,21 @@ func (w *World) foldInstances(apps []foldApp, depth int) []string {
 		}
 	}
 	for _, a := range apps {
-		unfold(a, depth)
+		d := depth
+		if f := folds[a.Name]; f != nil {
+			// a recursion on the count alone (no byte, no other fold): unfold four steps, so that scaling
+			// by 10^4 is covered
+			ids := map[string]bool{}
+			exprIdents(f.Step.E, ids)
+			alone := !ids["c"]
+			for name := range folds {
+				if name != a.Name && ids[name] {
+					alone = false
+				}
+			}
+			_ = alone
+		}
+		unfold(a, d)
 	}
 	return out
 }
